@@ -1,7 +1,9 @@
 #!/bin/bash
 # dev aid (NOT how detection.json is produced — that is tools/matrix.sh, via `git -C /repo apply`):
 # run seeded changes in parallel, each in a throw-away worktree of /repo selected with VERIF_REPO,
-# from a private copy of /verif so evidence/replays of /verif are not touched.
+# from a private copy of /verif so evidence/replays of /verif are not touched. Every check is first
+# run on the unchanged tree from the same copy; only signatures that the unchanged tree does not
+# produce are counted (so a stale known_instances.tsv during development does not blur the picture).
 # usage: tools/devmatrix.sh <tier> <id>[:<check>,...] ...     (env PAR=4, SEED=1)
 tier="$1"; shift
 export GOFLAGS=-mod=mod GOPROXY=off GOSUMDB=off GOTOOLCHAIN=local
@@ -9,21 +11,33 @@ dev=/var/tmp/vdev.$$
 rsync -a --exclude .git --exclude replays --exclude .bin /verif/ "$dev/" || exit 2
 (cd "$dev" && ./check --setup >/dev/null 2>&1) || { echo "setup failed"; exit 2; }
 out=/var/tmp/devmatrix.out; mkdir -p "$out"
-run_one() {
+sigs() { grep '^VIOLATION' "$1" | sed -E 's/.*signature="([^"]*)".*/\1/' | sort -u; }
+checks_of() {
   spec="$1"; id="${spec%%:*}"
   if [ "$id" = "$spec" ]; then
-    checks=$(python3 -c 'import json,sys; print(" ".join(r["check"] for r in json.load(open(sys.argv[1]))["runs"]))' "/verif/seeded/$id/detection.json" 2>/dev/null)
-    [ -n "$checks" ] || checks="${id%%-*}"
+    c=$(python3 -c 'import json,sys; print(" ".join(r["check"] for r in json.load(open(sys.argv[1]))["runs"]))' "/verif/seeded/$id/detection.json" 2>/dev/null)
+    [ -n "$c" ] || c="${id%%-*}"
   else
-    checks="$(echo "${spec#*:}" | tr ',' ' ')"
+    c="$(echo "${spec#*:}" | tr ',' ' ')"
   fi
+  echo "$c"
+}
+# baselines on the unchanged tree
+all=""
+for spec in "$@"; do all="$all $(checks_of "$spec")"; done
+all=$(echo $all | tr ' ' '\n' | sort -u)
+echo $all | tr ' ' '\n' | xargs -P "${PAR:-4}" -I{} sh -c 'VERIF_SEED='"${SEED:-1}"' VERIF_DIR='"$dev"' VERIF_BIN='"$dev"'/.bin/sebufverif '"$dev"'/check {} '"$tier"' > '"$out"'/base.{}.'"$tier"'.out 2>&1'
+for c in $all; do sigs "$out/base.$c.$tier.out" > "$out/base.$c.$tier.sigs"; echo "baseline $c: $(wc -l < "$out/base.$c.$tier.sigs") signatures on the unchanged tree"; done
+run_one() {
+  spec="$1"; id="${spec%%:*}"; checks=$(checks_of "$spec")
   wt="/var/tmp/mwt.$$.$id"
   git -C /repo worktree add --detach "$wt" HEAD >/dev/null 2>&1 || { echo "$id: worktree failed"; return; }
   if ! git -C "$wt" apply "/verif/seeded/$id/patch.diff"; then echo "$id: patch does not apply"; else
     for c in $checks; do
       o="$out/$id.$c.$tier.out"
       VERIF_SEED="${SEED:-1}" VERIF_DIR="$dev" VERIF_REPO="$wt" VERIF_BIN="$dev/.bin/sebufverif" "$dev/check" "$c" "$tier" > "$o" 2>&1; ec=$?
-      echo "$id $c exit=$ec violations=$(grep -c '^VIOLATION' "$o") harness=$(grep -c '^HARNESS' "$o") :: $(grep '^VIOLATION' "$o" | sed -E 's/.*signature="([^"]*)".*/\1/' | cut -c1-140 | head -2 | tr '\n' ';')"
+      new=$(sigs "$o" | comm -23 - "$out/base.$c.$tier.sigs")
+      echo "$id $c exit=$ec new_signatures=$(echo -n "$new" | grep -c .) harness=$(grep -c '^HARNESS' "$o") :: $(echo "$new" | cut -c1-150 | head -2 | tr '\n' ';')"
     done
   fi
   git -C /repo worktree remove --force "$wt" >/dev/null 2>&1; rm -rf "$wt"
